@@ -130,4 +130,20 @@ func init() {
 	)
 }
 
+func init() {
+	props = append(props,
+		Prop{
+			ID: "C03",
+			Runs: []Run{
+				{Harness: "zzverif/zzh.ZZC03Same", Desc: "same package: call, method call, composite literal, var, field, parameter, method value, unannotated twins; file name (regular / _test.go / look-alike), scan-tests, @testonly on type/func/method/enclosing function and enclosing method all symbolic", Bounds: map[string]interface{}{"skeleton": "c03SrcD + c03SrcProd", "holes": 6, "config": "ScanTests symbolic"}},
+				{Harness: "zzverif/zzh.ZZC03Shadow", Desc: "local variable / parameter sharing the name of a @testonly function", Bounds: map[string]interface{}{"skeleton": "c03SrcShadow"}},
+				{Harness: "zzverif/zzh.ZZC03Cross", Desc: "uses in a directly importing package (facts), same-named local function and method", Bounds: map[string]interface{}{"skeleton": "c03SrcD + c03SrcU", "holes": 3}},
+				{Harness: "zzverif/zzh.ZZC03TwoPkgs", Desc: "two imported packages declaring a same-named @testonly type, both used in one file", Bounds: map[string]interface{}{"skeleton": "c03SrcD1/D2/U2", "holes": 2}},
+			},
+			Outside:     []string{"generics; dot-imports; external test packages (package d_test) as separate passes"},
+			Assumptions: []string{"program skeletons parsed/type-checked by go/parser + go/types; facts passed in-process; file names flow only through token.FileSet.Position"},
+		},
+	)
+}
+
 var _ = eng.RepoMod
